@@ -166,17 +166,23 @@ void Optimizer::optimize()
 void Optimizer::analyze_stack()
 {
 	stack_analyzer.clear();
+	std::vector<int> unused;
 	for(auto && track_it : song->get_track_map())
 	{
 		Stack_Analyzer& dest = stack_analyzer[track_it.first];
 		if(!dest.base_usage)
 		{
 			dest.analyze_track(*song, track_it.second, *this, 0);
-			// Don't optimized unused tracks or macro tracks. TODO: Platform specific
 			if(track_it.first > 15)
-				dest.base_usage = 100;
+				unused.push_back(track_it.first);
 		}
 	}
+	// Don't optimized unused tracks or macro tracks. TODO: Platform specific
+	// They are marked only after all tracks have been analyzed: an unused macro track may be
+	// called by another unused macro track with a higher id, which has to raise the base usage
+	// of this track and of the tracks it calls.
+	for(auto && id : unused)
+		stack_analyzer[id].base_usage = 100;
 #if 0
 	if(verbose > 1)
 	{
